@@ -124,6 +124,29 @@ func runCase(mat *material, c *Case, trace bool) (res *Result) {
 			return
 		}
 		after := take(w.tree)
+		// what this call showed to be certified (permissive: anything the node MAY treat as certified)
+		switch op.K {
+		case "confirm":
+			m.certified[c.Par[op.N]] = true // a confirmed block carries a checked justify for its parent
+		case "propose":
+			if m.accepted[op.N] || stored(w.tree, op.N) {
+				m.certified[c.Par[op.N]] = true
+			}
+		case "justify":
+			m.certified[op.N] = true
+			for v := 1; v <= op.Q && v < numValidators; v++ {
+				m.addSigner(op.N, v)
+			}
+		case "vote":
+			if callErr == nil {
+				m.addSigner(op.N, op.V)
+				if len(m.signers[op.N]) >= quorumOthers {
+					m.certified[op.N] = true
+				}
+			}
+		case "enforce":
+			m.certified[op.N] = true
+		}
 		if newly {
 			m.noteArrival(op.N, i, before)
 			kids[c.Par[op.N]]++
@@ -151,6 +174,13 @@ func runCase(mat *material, c *Case, trace bool) (res *Result) {
 		m.stats["end.with-orphans"]++
 	}
 	return
+}
+
+func (m *Model) addSigner(l, v int) {
+	if m.signers[l] == nil {
+		m.signers[l] = map[int]bool{}
+	}
+	m.signers[l][v] = true
 }
 
 func stored(t *bft.QCPendingTree, l int) bool {
@@ -263,5 +293,5 @@ func shapeOf(c *Case) string {
 		fmt.Fprintf(&b, "%d<%d@%d,", r, ren[p], c.View[l]-c.View[0])
 	}
 	h := sha1.Sum([]byte(b.String()))
-	return c.Fam + "|" + hex.EncodeToString(h[:10])
+	return c.Fam + "|" + hex.EncodeToString(h[:8])
 }
